@@ -24,11 +24,11 @@ import (
 // Type is a type constraint of an attribute.
 // K: string number bool any list set map object tuple.
 type Type struct {
-	K   string  `json:"k"`
-	E   *Type   `json:"e,omitempty"`   // element type of list/set/map
-	F   []Field `json:"f,omitempty"`   // object attributes / tuple elements (N empty)
-	Int  bool   `json:"int,omitempty"`  // number: only int64 integers are generated (Go side: int64)
-	Uint bool   `json:"uint,omitempty"` // number: only uint64 integers are generated (Go side: uint64); neither: any number (Go side: float64)
+	K    string  `json:"k"`
+	E    *Type   `json:"e,omitempty"`    // element type of list/set/map
+	F    []Field `json:"f,omitempty"`    // object attributes / tuple elements (N empty)
+	Int  bool    `json:"int,omitempty"`  // number: only int64 integers are generated (Go side: int64)
+	Uint bool    `json:"uint,omitempty"` // number: only uint64 integers are generated (Go side: uint64); neither: any number (Go side: float64)
 }
 
 type Field struct {
